@@ -630,7 +630,13 @@ func (s *Scheme) initializeDKG(dkg KeyGenerator, threshold int, members []Univer
 
 	dkgTopicHash := hash([]byte(DkgTopicName))
 
-	dkg.Init(universalIDsToUInts(members), threshold, func(msg []byte, isBroadcast bool, to uint16) {
+	// The MPC backend works with party identifiers, not universal identifiers
+	parties, err := membership.partyIDsByUniversalIDs(members)
+	if err != nil {
+		return err
+	}
+
+	dkg.Init(partyIDsToUInts(parties), threshold, func(msg []byte, isBroadcast bool, to uint16) {
 		var payload []byte
 		payload = append(payload, 255)
 		payload = append(payload, msg...)
